@@ -1,12 +1,45 @@
 /-
-  Line-protocol handlers for C05.  `handle` receives the tokens after the property id.
+  Line-protocol handlers for C05 (grammar analysis).
 -/
 import GEVerif.Model.Sexp
+import GEVerif.Model.Grammar
+import GEVerif.Drive.Parse
 
 namespace GEVerif.Drive.C05
-open GEVerif Sexp
+open GEVerif Sexp GEVerif.Drive
+
+def altsSx (alts : List (Nat × List Nat)) : Sexp :=
+  list ((sortBy (fun (p : Nat × List Nat) => p.1) alts).map fun (p, cs) => list [ofNat p, ofNats cs])
+
+def distSx (d : DistTable) : Sexp :=
+  list ((sortBy (fun (p : Sym × Nat) => symKey p.1) d).map fun (s, n) => list [symSx s, ofNat n])
+
+def parseDist (s : Sexp) : Option DistTable := do
+  let xs ← s.asList?
+  xs.mapM fun
+    | list [k, v] => do pure (← parseSym k, ← v.asNat?)
+    | _ => none
+
+def obs (g : Grammar) : List Sexp := [
+  list [atom "error", ofBool g.reg.error],
+  list [atom "alts", altsSx g.reg.alts],
+  list [atom "dist", distSx g.dist],
+  list [atom "rec", symsSx g.recursive],
+  list [atom "terminals", symsSx g.reg.terminals],
+  list [atom "nonterminals", symsSx g.reg.nonTerminals]]
 
 def handle : List Sexp → Option Sexp
+  | [atom "analyse", spec] => do
+      let g := analyse (← parseSpec spec)
+      pure (list (obs g ++ [list [atom "usable", ofNats (sortBy id (usableGrammar g).classNodes)]]))
+  | [atom "analyse_nousable", spec] => do
+      pure (list (obs (analyse (← parseSpec spec))))
+  | [atom "analyse_error", spec] => do
+      pure (ofBool (analyse (← parseSpec spec)).reg.error)
+  | [atom "prop_fixpoint", spec, dist] => do
+      let spec ← parseSpec spec
+      let g := analyse spec
+      pure (ofBool (isFixpoint spec g.reg (← parseDist dist)))
   | _ => none
 
 end GEVerif.Drive.C05
